@@ -916,33 +916,65 @@ fn scenario_access(args: &Args, report: &mut Report) {
     let case = json!({"engine":"ws_live","scenario":"access","mode": if deny {"deny"} else {"allow"},"config":format!("{}x{}", sw, ww)});
     let permitted = |listed: bool| if deny { !listed } else { listed };
     let mut pid_ctr = 0u8;
-    // every announce on a fresh connection (one peer id per torrent and connection); connections stay open
-    let mut keep: Vec<WsConn> = Vec::new();
-    let mut announce = |report: &mut Report, keep: &mut Vec<WsConn>, h: &[u8; 20], listed: bool, phase: &str| {
+    // Sessions: every first announce happens on a fresh connection (one peer id per torrent and connection); the
+    // connections stay open and - after every (attempted) reload - each of them announces its torrent AGAIN on the same
+    // connection: the statement's "decisions follow the new list" holds for clients that were there before the reload too
+    // (seeded C11c consulted the list only at a connection's first announce of a hash).
+    struct Session {
+        conn: WsConn,
+        h: usize,
+        pid: [u8; 20],
+    }
+    let hashes = [h1, h2, h3];
+    let mut listed = [true, false, false];
+    let mut sessions: Vec<Session> = Vec::new();
+    let mut announce = |report: &mut Report, sessions: &mut Vec<Session>, h: usize, listed: &[bool; 3], phase: &str| {
         pid_ctr += 1;
+        let pid = pid_n(pid_ctr);
         let mut c = WsConn::open(tracker.addr_v4(), None).unwrap();
-        let replies = ask(&mut c, &announce_json(h, &pid_n(pid_ctr), Some("started"), Some(1), None, None), 12_000);
+        let replies = ask(&mut c, &announce_json(&hashes[h], &pid, Some("started"), Some(1), None, None), 12_000);
         report.eval();
-        let ok = permitted(listed);
+        let ok = permitted(listed[h]);
         let got_reply = replies.iter().any(|m| matches!(m, Msg::AnnounceReply { .. }));
         let got_error = replies.iter().any(|m| matches!(m, Msg::Error { .. }));
         if ok != got_reply || ok == got_error {
-            report.violation(if ok { "ws.live.permitted_announce_refused" } else { "ws.live.forbidden_announce_accepted" }, "access", format!("{}: announce of a {} hash answered with {:?}", phase, if listed { "listed" } else { "unlisted" }, replies), case.clone());
+            report.violation(if ok { "ws.live.permitted_announce_refused" } else { "ws.live.forbidden_announce_accepted" }, "access", format!("{}: announce of a {} hash on a fresh connection answered with {:?}", phase, if listed[h] { "listed" } else { "unlisted" }, replies), case.clone());
         }
-        keep.push(c);
+        sessions.push(Session { conn: c, h, pid });
+    };
+    let reannounce_all = |report: &mut Report, sessions: &mut Vec<Session>, listed: &[bool; 3], phase: &str| {
+        for (i, s) in sessions.iter_mut().enumerate() {
+            let event = if i % 2 == 0 { None } else { Some("completed") };
+            let replies = ask(&mut s.conn, &announce_json(&hashes[s.h], &s.pid, event, Some((i % 2) as u64), None, None), 12_000);
+            report.eval();
+            report.count("access.reannounce_on_kept_connection");
+            let ok = permitted(listed[s.h]);
+            let got_reply = replies.iter().any(|m| matches!(m, Msg::AnnounceReply { .. }));
+            let got_error = replies.iter().any(|m| matches!(m, Msg::Error { .. }));
+            if ok != got_reply || ok == got_error {
+                report.violation(if ok { "ws.live.permitted_reannounce_refused" } else { "ws.live.forbidden_reannounce_accepted" }, "access", format!("{}: re-announce of a {} hash on the connection that announced it earlier (session {}) answered with {:?}", phase, if listed[s.h] { "listed" } else { "unlisted" }, i, replies), case.clone());
+            }
+        }
+    };
+    // stored peers per torrent = sessions of a currently permitted torrent (each announced with its own peer id)
+    let check_state = |report: &mut Report, obs: &mut WsConn, sessions: &Vec<Session>, listed: &[bool; 3], phase: &str| {
+        for h in 0..3 {
+            let want = if permitted(listed[h]) { sessions.iter().filter(|s| s.h == h).count() as u64 } else { 0 };
+            let got = scrape_counts(obs, &hashes[h]).map(|x| x.0 + x.1);
+            report.eval();
+            if got != Some(want) {
+                let sig = if !permitted(listed[h]) { if phase.contains("clean") { "ws.live.forbidden_torrent_survived_clean" } else { "ws.live.refused_announce_created_state" } } else { "ws.live.permitted_torrent_removed_by_clean" };
+                report.violation(sig, "access", format!("{}: scrape of torrent {} shows {:?}, expected {}", phase, h, got, want), case.clone());
+            }
+        }
     };
     let mut obs = WsConn::open(tracker.addr_v4(), None).unwrap();
-    announce(report, &mut keep, &h1, true, "initial list");
-    announce(report, &mut keep, &h2, false, "initial list");
-    announce(report, &mut keep, &h3, false, "initial list");
-    for (h, listed) in [(h1, true), (h2, false), (h3, false)] {
-        let want = if permitted(listed) { 1 } else { 0 };
-        let got = scrape_counts(&mut obs, &h).map(|x| x.0 + x.1);
-        report.eval();
-        if got != Some(want) {
-            report.violation("ws.live.refused_announce_created_state", "access", format!("initial list: scrape shows {:?}, expected {}", got, want), case.clone());
-        }
+    for h in 0..3 {
+        announce(report, &mut sessions, h, &listed, "initial list");
     }
+    check_state(report, &mut obs, &sessions, &listed, "initial list");
+    reannounce_all(report, &mut sessions, &listed, "initial list");
+    check_state(report, &mut obs, &sessions, &listed, "initial list, after re-announces");
     report.nontrivial(vcore::fnv(format!("initial/{}", deny).as_bytes()));
     write_list(&[h2]);
     let ok0 = counter("access_list.update.ok");
@@ -953,20 +985,19 @@ fn scenario_access(args: &Args, report: &mut Report) {
         report.inconclusive("reload not observed");
         return;
     }
-    announce(report, &mut keep, &h2, true, "after reload");
-    announce(report, &mut keep, &h1, false, "after reload");
+    listed = [false, true, false];
+    announce(report, &mut sessions, 1, &listed, "after reload");
+    announce(report, &mut sessions, 0, &listed, "after reload");
+    // old clients first meet the new list before the cleaning pass ...
+    reannounce_all(report, &mut sessions, &listed, "after reload, before the cleaning pass");
     if !wait_cleans(2, ww) {
         report.inconclusive("no cleaning pass observed (ws.clean_done)");
         return;
     }
-    let expect_after: Vec<([u8; 20], u64)> = if deny { vec![(h1, 1), (h2, 0), (h3, 1)] } else { vec![(h1, 0), (h2, 1), (h3, 0)] };
-    for (h, want) in expect_after {
-        let got = scrape_counts(&mut obs, &h).map(|x| x.0 + x.1);
-        report.eval();
-        if got != Some(want) {
-            report.violation(if got.unwrap_or(0) > want { "ws.live.forbidden_torrent_survived_clean" } else { "ws.live.permitted_torrent_removed_by_clean" }, "access", format!("after reload + cleaning pass: scrape {:?}, expected {}", got, want), case.clone());
-        }
-    }
+    check_state(report, &mut obs, &sessions, &listed, "after reload + cleaning pass");
+    // ... and again after it removed the forbidden torrents: a refused re-announce must not re-create them
+    reannounce_all(report, &mut sessions, &listed, "after reload and cleaning pass");
+    check_state(report, &mut obs, &sessions, &listed, "after reload + cleaning pass + re-announces");
     report.nontrivial(vcore::fnv(format!("reload/{}", deny).as_bytes()));
     for (k, bad) in ["zz\n".to_string(), format!("{}\n{}x\n", vcore::hex(&h3), vcore::hex(&h1)), "MISSING".to_string()].iter().enumerate() {
         if bad == "MISSING" {
@@ -986,11 +1017,31 @@ fn scenario_access(args: &Args, report: &mut Report) {
         if counter("access_list.update.ok") > o0 {
             report.violation("ws.live.malformed_list_accepted", "access", format!("reload #{} of a malformed / missing file succeeded", k), case.clone());
         }
-        announce(report, &mut keep, &h2, true, "after failed reload");
-        announce(report, &mut keep, &h1, false, "after failed reload");
-        announce(report, &mut keep, &h3, false, "after failed reload");
+        for h in [1usize, 0, 2] {
+            announce(report, &mut sessions, h, &listed, "after failed reload");
+        }
+        reannounce_all(report, &mut sessions, &listed, "after failed reload");
+        check_state(report, &mut obs, &sessions, &listed, "after failed reload");
         report.nontrivial(vcore::fnv(format!("failed/{}/{}", k, deny).as_bytes()));
     }
+    // a second successful reload that re-admits torrent 0: sessions refused so far are served again on their old connections
+    write_list(&[h1, h2]);
+    let ok1 = counter("access_list.update.ok");
+    unsafe {
+        libc::kill(libc::getpid(), libc::SIGUSR1);
+    }
+    if !vcore::net::wait_until(5000, || counter("access_list.update.ok") > ok1) {
+        report.inconclusive("second reload not observed");
+        return;
+    }
+    listed = [true, true, false];
+    reannounce_all(report, &mut sessions, &listed, "after second reload");
+    if !wait_cleans(2, ww) {
+        report.inconclusive("no cleaning pass observed (ws.clean_done)");
+        return;
+    }
+    check_state(report, &mut obs, &sessions, &listed, "after second reload + cleaning pass");
+    report.nontrivial(vcore::fnv(format!("reload2/{}", deny).as_bytes()));
     report.sample(json!({"mode": if deny {"deny"} else {"allow"}}));
     let _ = std::fs::remove_dir_all(&tmp);
 }
